@@ -24,12 +24,15 @@ mod sharing;
 mod instr;
 #[path = "c12_globals.rs"]
 mod globals;
+#[path = "c12_frame.rs"]
+mod frame;
 
 pub const TARGETS: &[Target] = &[
     ("c12bounds", "C12Bounds", c12bounds as Gen),
     ("c12sharing", "C12Sharing", sharing::c12sharing as Gen),
     ("c12instr", "C12Instr", instr::c12instr as Gen),
     ("c12globals", "C12Globals", globals::c12globals as Gen),
+    ("c12frame", "C12Frame", frame::c12frame as Gen),
 ];
 
 fn bound_name(s: &str) -> &'static str {
